@@ -155,6 +155,9 @@ func runSCEP(k *Case) result {
 	stored := d("x509_certs")
 	nrec := e.recorded(hs)
 	fc := failClosed(cl, got, ev, e.rec.endpoints(), len(hs), nrec, 0, 0, "na", false)
+	if cl == "ok" && standingDenial(k) {
+		fc = "BROKEN"
+	}
 	if cl == "ok" && k.CH > 0 && k.Var != "badhook" { // challenge webhooks are configured: one of them must have allowed
 		allowed := false
 		for _, x := range ev {
